@@ -28,6 +28,9 @@ pub struct Expect {
     pub maybe_lost: Vec<Id>,
     /// the number of clone events is not pinned down (rejected lazy consumption)
     pub clones_lenient: bool,
+    /// the operation may legitimately end in a panic or not (a grossly lying iterator: the capacity request is refused
+    /// by a panic where storage is needed, and is harmless for zero-sized elements)
+    pub panic_optional: bool,
     /// (vector, n): after a documented leak the first n elements must be unchanged and everything
     /// after them must come from the leaked set
     pub prefix_keep: Vec<(usize, usize)>,
@@ -398,6 +401,9 @@ impl Model {
                         ex.maybe_lost.extend_from_slice(&self.vecs[*v][at..]);
                         if !matches!(repl, Repl::Lying(..)) {
                             ex.out.panicked = true;
+                        }
+                        if matches!(repl, Repl::Lying(_, LIE_HUGE)) {
+                            ex.panic_optional = true;
                         }
                         return ex;
                     }
